@@ -5,7 +5,7 @@ NOT_APPLICABLE = {}
 
 CHECKS = {
     'C01': {
-        'harnesses': ['harness.queue'],
+        'harnesses': ['harness.queue'], 'lemmas': 'c01',
         'text': 'Bounded model checking of the real Environment/Event queue: every bounded sequence of schedule / schedule-in-the-past / '
                 'pause / unpause / cancel / step / run operations, also issued from inside event actions, with symbolic assets, delays, '
                 'priorities, run lengths and free tie-break weights, is explored path-exhaustively; an online reference queue checks that '
@@ -13,7 +13,7 @@ CHECKS = {
                 'is rejected without effect, actions run at most once and run(d) executes exactly the live events due by t0+d.',
     },
     'C07': {
-        'harnesses': ['harness.queue'],
+        'harnesses': ['harness.queue'], 'lemmas': 'c07',
         'text': 'Same harness as C01 restricted to schedule/pause/unpause/cancel/advance at non-zero symbolic times: after every operation '
                 'the real pending and paused sets must equal the reference (paused events withheld, resumed at original time + pause length, '
                 'cancelled events never run, later events unaffected, redundant calls no-ops), and after a final unpause-all + drain every '
